@@ -177,7 +177,8 @@ func Response(r *rand.Rand, o HTTPOpts) RespSpec {
 		s.StatusClass = "bad-code"
 	case kind < 88:
 		s.StatusClass = "garbage"
-		s.StatusLine = []string{"garbage" + end, "HTTP 200 OK" + end, "200 OK" + end, end, "HTTP/1.1" + end, "HTTP/1.1 OK 200" + end, "ICY 200 OK" + end, "HTTP/1.1 2 0 0" + end, "<html>" + end, "HTTP/1.x 200 OK" + end}[r.Intn(10)]
+		s.StatusLine = []string{"garbage" + end, "HTTP 200 OK" + end, "200 OK" + end, end, "HTTP/1.1" + end, "HTTP/1.1 OK 200" + end, "ICY 200 OK" + end, "HTTP/1.1 2 0 0" + end, "<html>" + end, "HTTP/1.x 200 OK" + end,
+			"HTTP/1.1 30 Found" + end, "HTTP/1.0 3 Moved" + end, "HTTP/1.1 3" + end, "HTTP/1.1 30" + end, "HTTP/1.1 20 OK" + end, "HTTP/1.1 2 OK" + end}[r.Intn(16)]
 		s.Code = 0
 	default:
 		s.StatusClass = "grey"
@@ -232,10 +233,11 @@ func Response(r *rand.Rand, o HTTPOpts) RespSpec {
 	if r.Intn(6) == 0 {
 		addCT() // duplicates / conflicts
 	}
-	if s.StatusClass == "redirect" || r.Intn(10) == 0 {
+	shortCode := s.Code == 0 && (strings.Contains(s.StatusLine, " 3") || strings.Contains(s.StatusLine, " 2"))
+	if s.StatusClass == "redirect" || r.Intn(10) == 0 || (shortCode && o.Location != nil && r.Intn(2) == 0) {
 		x := r.Intn(100)
 		if s.StatusClass != "redirect" {
-			x = 0
+			x = 0 // a Location header on something that is no redirect (an invalid status line that merely begins with 3, a 200): ignored
 		}
 		switch {
 		case x < 80 && o.Location != nil:
